@@ -62,6 +62,8 @@ def configs(tier):
     ship = [g for g in gengene.shipped_genes() if not g.startswith("pharma")]
     for i in range(4):
         c.append({"kind": "corpus", "genes": ship[i::4]})
+    # fixed generated databases (opposite strands; variants on region boundaries)
+    c.append({"kind": "corpus", "genes": ["GA", "GB", "GC", "GD", "toy"]})
     return c
 
 
